@@ -1702,3 +1702,87 @@ func ruleShapePayload(c *Ctx, r *R) {
 		r.check(okType, key, c.Pos(e.Pos()), "internal value of type "+got+", as stored by new "+cls, fmt.Sprintf("%s.prototype holds an internal value of Go type %s, but `new %s` stores %v: the readers of the class's payload (valueOf, toString, JSON.stringify ...) are written against the constructor's type, so with the prototype itself as receiver they answer undefined or fail a type assertion in the host", cls, got, cls, sortedKeys(want)))
 	}
 }
+
+// ---- SIB-reflect-range -------------------------------------------------------------------------------------------------
+
+func init() {
+	register(&Rule{ID: "SIB-reflect-range", Props: []string{"C16", "C15"}, Min: 10,
+		Doc: "T (sibling agreement over the arms of Value.toReflectValue): every arm that narrows a script number to a Go integer kind converts a value that a dominating test has bounded on both sides (operand < lower ... operand > upper, each leading to the RangeError return). An arm with a one-sided or missing test turns an out-of-range script number into a wrapped or saturated Go integer instead of an error",
+		Run: ruleSibReflectRange})
+}
+
+func ruleSibReflectRange(c *Ctx, r *R) {
+	var fn *ssa.Function
+	for _, f := range c.AllSrcFuncs("") {
+		if f.Parent() == nil && f.Name() == "toReflectValue" && f.Signature.Recv() != nil && typeIs(f.Signature.Recv().Type(), ottoPath, "Value") {
+			fn = f
+		}
+	}
+	if fn == nil {
+		r.undecided("unresolved:toReflectValue", "-", "UNRESOLVED: Value.toReflectValue not found")
+		return
+	}
+	ord := map[string]int{}
+	for _, b := range fn.Blocks {
+		for _, ins := range b.Instrs {
+			cv, ok := ins.(*ssa.Convert)
+			if !ok {
+				continue
+			}
+			to, ok := cv.Type().Underlying().(*types.Basic)
+			if !ok || to.Info()&types.IsInteger == 0 {
+				continue
+			}
+			from, ok := cv.X.Type().Underlying().(*types.Basic)
+			if !ok || (from.Kind() != types.Int64 && from.Kind() != types.Float64) {
+				continue
+			}
+			// only conversions whose result is handed to reflect.ValueOf (the value given to the host)
+			toHost := false
+			for _, ref := range *cv.Referrers() {
+				if _, ok := ref.(*ssa.MakeInterface); ok {
+					toHost = true
+				}
+			}
+			if !toHost {
+				continue
+			}
+			ord[to.Name()]++
+			key := fmt.Sprintf("%s#%d", to.Name(), ord[to.Name()])
+			lower, upper := false, false
+			for _, blk := range fn.Blocks {
+				iff, ok := blk.Instrs[len(blk.Instrs)-1].(*ssa.If)
+				if !ok || !blk.Dominates(cv.Block()) {
+					continue
+				}
+				for _, cmp := range comparisonsOf(iff.Cond, 0) {
+					x, y := cmp.X, cmp.Y
+					op := cmp.Op
+					if sameSSA(y, cv.X, 0) { // constant OP operand: mirror
+						x, y = y, x
+						switch op {
+						case token.LSS:
+							op = token.GTR
+						case token.GTR:
+							op = token.LSS
+						case token.LEQ:
+							op = token.GEQ
+						case token.GEQ:
+							op = token.LEQ
+						}
+					}
+					if !sameSSA(x, cv.X, 0) {
+						continue
+					}
+					switch op {
+					case token.LSS, token.LEQ:
+						lower = true
+					case token.GTR, token.GEQ:
+						upper = true
+					}
+				}
+			}
+			r.check(lower && upper, key, c.Pos(instrPos(cv)), "operand bounded below and above before the conversion", fmt.Sprintf("the %s arm of Value.toReflectValue converts a %s to %s with%s%s: a script number outside the range of the Go type reaches the host function wrapped or saturated instead of raising a RangeError", to.Name(), from.Name(), to.Name(), map[bool]string{true: "", false: " no lower-bound test"}[lower], map[bool]string{true: "", false: " no upper-bound test"}[upper]))
+		}
+	}
+}
